@@ -612,7 +612,21 @@ def main(ck):
         ctx_pair = [("batchctx_a_global_class", "<?php\nclass CtxDup { function who() { return 'global'; } }\necho (new CtxDup())->who(), \"\\n\";\n"),
                     ("batchctx_b_namespaced_class", "<?php\nnamespace CtxNs;\nclass CtxDup { function who() { return 'namespaced'; } function again() { return new CtxDup(); } }\n"
                                                     "echo (new CtxDup())->who(), (new CtxDup())->again()->who(), \"\\n\";\n")]
-        for name, src in sprogs + include_programs() + ctx_pair + gen_programs(rng, 16 if quick else 60):
+        # the entry includes, at run time, a helper that is NOT part of the compiled tree, and the helper does
+        # require_once of the ENTRY's own path (a circular include: a no-op when interpreted, because running a script
+        # puts it on the loaded-files list; seeded C16-12).  The helper lives next to the program directory.
+        back_src = ("<?php\necho \"entry\\n\";\nfunction only_once_back() { return 1; }\n"
+                    "include __DIR__ . '/../ext_back/helper.php';\nrequire_once __FILE__;\necho \"after \", only_once_back(), \"\\n\";\n")
+        os.makedirs(os.path.join(work, "ext_back"), exist_ok=True)
+        open(os.path.join(work, "ext_back", "helper.php"), "w").write(
+            "<?php\necho \"helper\\n\";\nrequire_once '%s';\necho \"helper done\\n\";\n" % os.path.join(gen_dir, "x_include_back_to_entry.php"))
+        # a namespace that declares functions named like built-ins: calls bound while parsing keep meaning the built-in
+        # (seeded C16-11: the late-bound form the compiler emits for every call looked the name up in the namespace first)
+        shadow_src = ("<?php\nnamespace App\\Text;\nfunction strlen($s) { return 42; }\nfunction ucfirst($s) { return '<' . $s . '>'; }\nfunction count($x) { return -1; }\n"
+                      "function mine($s) { return strlen($s) . ucfirst($s); }\n"
+                      "echo strlen('abc'), ' ', ucfirst('abc'), ':', \\strlen('abcd'), ' ', \\App\\Text\\strlen('x'), ' ', count([1, 2]), ' ', mine('q'), \"\\n\";\n")
+        more = [("include_back_to_entry", back_src), ("namespace_shadows_builtin", shadow_src)]
+        for name, src in sprogs + include_programs() + ctx_pair + more + gen_programs(rng, 16 if quick else 60):
             p = os.path.join(gen_dir, "x_%s.php" % name)
             write_src(p, src)
             progs[p] = {"kind": "feature", "features": [name], "src": src}
@@ -1023,7 +1037,7 @@ def main(ck):
 
     # ---- real single-program projects from the unmodified generated register.go / main.go / go.mod
     real = [f for f in gen_files if progs[f]["kind"] == "feature"]
-    real = [f for f in real if progs[f]["features"][0] in ("class_const", "try_catch", "uncaught_throw", "exit_code", "namespace_fn", "closure_value", "shutdown_function", "datetime_fixed", "multi_namespace", "ob_open_at_end_shutdown")]
+    real = [f for f in real if progs[f]["features"][0] in ("class_const", "try_catch", "uncaught_throw", "exit_code", "namespace_fn", "closure_value", "shutdown_function", "datetime_fixed", "multi_namespace", "ob_open_at_end_shutdown", "include_back_to_entry", "namespace_shadows_builtin")]
     if not quick:
         # one real project per feature block + a seeded dozen of the generated families (a project costs ~4 s)
         real = [f for f in gen_files if os.path.basename(f).startswith("f")]
@@ -1039,6 +1053,10 @@ def main(ck):
         os.makedirs(src)
         entry = os.path.join(src, "app.php")
         shutil.copy(f, entry)
+        if "ext_back/helper.php" in open(f, encoding="utf-8", errors="replace").read():
+            os.makedirs(os.path.join(work, "real", name, "ext_back"), exist_ok=True)
+            open(os.path.join(work, "real", name, "ext_back", "helper.php"), "w").write(
+                "<?php\necho \"helper\\n\";\nrequire_once '%s';\necho \"helper done\\n\";\n" % entry)
         p = subprocess.run([origami, "compile", src, "--build", "--entry=" + entry, "-o", out], cwd=repo,
                            stdout=subprocess.PIPE, stderr=subprocess.STDOUT, text=True, timeout=600)
         if not os.path.exists(os.path.join(out, "main.go")):
